@@ -233,42 +233,51 @@ def LoopInv (clean : Nat → CleanRes) (inside : Nat → Nat → Bool) (T : Tabl
   ∀ i ∈ done, ∀ (r : OutRec) (p : Path), T[i]? = some r → r.isOpen = false → r.hasPts = true → clean i = .path p →
     (getBounds p).isEmpty = false → ∃ r' : OutRec, S.recs[i]? = some r' ∧ r'.polypath.isSome = true
 
+theorem LoopInv.init {clean : Nat → CleanRes} {inside : Nat → Nat → Bool} {T : Table} (hF : Fresh T) (hA : Acyclic T) :
+    LoopInv clean inside T [] { recs := T } := by
+  refine ⟨hF.ginv hA, RFrame.refl _ _, ?_, fun i hi => by simp at hi⟩
+  show (polyTreeToPaths (Tree.node [] [])).Perm (placedPaths T)
+  have : placedPaths T = [] := by
+    unfold placedPaths
+    rw [filterMap_range_congr (fun _ => none) (placedPath T) T.size (fun j hj => by
+      have hj' : T[j]? = some T[j] := by simp [hj]
+      simp [placedPath, hj', (hF j _ hj').1])]
+    induction T.size with
+    | zero => rfl
+    | succ n ih => rw [List.range_succ, List.filterMap_append, ih]; rfl
+  rw [this]; exact List.Perm.refl _
+
+theorem LoopInv.step {clean : Nat → CleanRes} {inside : Nat → Nat → Bool} {openPath : Nat → Option Path}
+    {fuel : Nat} {T : Table} {done : List Nat} {S0 S1 : St} {i : Nat}
+    (hstep : buildTreeStep clean inside openPath fuel S0 i = some S1) (hI : LoopInv clean inside T done S0) :
+    LoopInv clean inside T (done ++ [i]) S1 := by
+  obtain ⟨hG, hFr, hPI, hdone⟩ := hI
+  obtain ⟨hG1, hFr1, hnew, hPs⟩ := buildTreeStep_full hstep hG
+  refine ⟨hG1, hFr.trans hFr1, hPs hPI, fun j hj r p hTj hop hpts hc hb => ?_⟩
+  rcases List.mem_append.mp hj with hj | hj
+  · obtain ⟨r', hr', hs⟩ := hdone j hj r p hTj hop hpts hc hb
+    obtain ⟨r'', hr'', _, pp⟩ := hFr1.2 j r' hr'
+    exact ⟨r'', hr'', by rw [pp hs]; exact hs⟩
+  · simp only [List.mem_singleton] at hj
+    subst hj
+    obtain ⟨r0, hr0, rs, _⟩ := hFr.2 j r hTj
+    have hpts0 : r0.hasPts = true := by
+      cases hh : r0.hasPts with
+      | true => rfl
+      | false =>
+        have := rs.disposed hpts hh
+        rw [hc] at this
+        cases this
+    exact hnew r0 p hr0 (rs.isOpen.trans hop) hpts0 hc hb
+
 theorem buildTree_loopInv {clean : Nat → CleanRes} {inside : Nat → Nat → Bool} {openPath : Nat → Option Path}
     {fuel : Nat} {T : Table} {S : St} (hF : Fresh T) (hA : Acyclic T)
     (h : buildTree clean inside openPath fuel T = some S) :
     LoopInv clean inside T (List.range T.size) S := by
   unfold buildTree at h
   have := foldlM_inv_list (I := LoopInv clean inside T)
-    (f := fun S i => buildTreeStep clean inside openPath fuel S i) ?_ (List.range T.size) [] _ _ h
-    ⟨hF.ginv hA, RFrame.refl _ _, ?_, fun i hi => by simp at hi⟩
-  · simpa using this
-  · intro done S0 i S1 hstep ⟨hG, hFr, hPI, hdone⟩
-    obtain ⟨hG1, hFr1, hnew, hPs⟩ := buildTreeStep_full hstep hG
-    refine ⟨hG1, hFr.trans hFr1, hPs hPI, fun j hj r p hTj hop hpts hc hb => ?_⟩
-    rcases List.mem_append.mp hj with hj | hj
-    · obtain ⟨r', hr', hs⟩ := hdone j hj r p hTj hop hpts hc hb
-      obtain ⟨r'', hr'', _, pp⟩ := hFr1.2 j r' hr'
-      exact ⟨r'', hr'', by rw [pp hs]; exact hs⟩
-    · simp only [List.mem_singleton] at hj
-      subst hj
-      obtain ⟨r0, hr0, rs, _⟩ := hFr.2 j r hTj
-      have hpts0 : r0.hasPts = true := by
-        cases hh : r0.hasPts with
-        | true => rfl
-        | false =>
-          have := rs.disposed hpts hh
-          rw [hc] at this
-          cases this
-      exact hnew r0 p hr0 (rs.isOpen.trans hop) hpts0 hc hb
-  · show (polyTreeToPaths (Tree.node [] [])).Perm (placedPaths T)
-    have : placedPaths T = [] := by
-      unfold placedPaths
-      rw [filterMap_range_congr (fun _ => none) (placedPath T) T.size (fun j hj => by
-        have hj' : T[j]? = some T[j] := by simp [hj]
-        simp [placedPath, hj', (hF j _ hj').1])]
-      induction T.size with
-      | zero => rfl
-      | succ n ih => rw [List.range_succ, List.filterMap_append, ih]; rfl
-    rw [this]; exact List.Perm.refl _
+    (f := fun S i => buildTreeStep clean inside openPath fuel S i)
+    (fun done S0 i S1 hstep hI => LoopInv.step hstep hI) (List.range T.size) [] _ _ h (LoopInv.init hF hA)
+  simpa using this
 
 end Clipper.Model.Owner
